@@ -415,6 +415,21 @@ func (e *eng) analyse(pa *pathRec, rep func(problem), optimistic bool) analysis 
 				report("B4", "result in tmp", "the node answers Tmp but tmp is not known to hold its result at the end of its code", n)
 			}
 		}
+		// B12: the value of a yield expression is the value that was yielded.
+		// Between the yield and the resume the consuming loop's body runs, and it
+		// may assign the global or the shared closure variable the operand was
+		// read from: a descriptor that sends the user of the value back to the
+		// operand's own location reads it again after the resume. The value has
+		// to be kept where the body cannot reach it (the generator's own stack).
+		if pa.key.Type == "Yield" && !pa.key.F.Discard {
+			if !kok {
+				report("B12", "value of a yield expression", "the yield answers with its operand's own descriptor: whoever uses the value reads the operand's location again after the generator has been resumed, and the loop body may have assigned that variable in between (a global, a closure variable shared with the running definer)", n)
+			} else if kind == K["AddrGbl"] || kind == K["AddrCls"] {
+				// constants, immediates and the generator's own locals cannot be
+				// written by the loop body; globals and captured variables can
+				report("B12", "value of a yield expression", "the yield answers "+e.kname(kind)+": whoever uses the value reads that variable again after the generator has been resumed, and the loop body may have assigned it in between", n)
+			}
+		}
 	}
 	return an
 }
@@ -568,7 +583,7 @@ func (e *eng) check() {
 				reported[id] = true
 				e.s.Bad(rule, method+" / "+what, posOf(k), detail, e.describe(pa)...)
 			})
-			for _, r := range []string{"B1", "B2", "B3", "B4", "B5", "B6", "B7", "B8", "B9", "B10", "B11", "T1", "T2m"} {
+			for _, r := range []string{"B1", "B2", "B3", "B4", "B5", "B6", "B7", "B8", "B9", "B10", "B11", "B12", "T1", "T2m"} {
 				if !dirty[r] {
 					perMethod[method][r]++
 				}
@@ -600,11 +615,15 @@ func (e *eng) check() {
 		"B3": "jumps are patched exactly once into the node's own code; code is only appended", "B4": "the result descriptor tells where the value is",
 		"B5": "children are compiled in source order into the operand slots the VM reads them from", "B6": "conditions are tested by a conditional jump of the right polarity", "B11": "the value of an assignment is computed, except for the increment of the assigned variable by the literal 1",
 		"B7": "debug info is keyed by the address of the CALL", "B8": "iterator context ids are created, resumed and destroyed consistently",
+		"B12": "the value of a yield expression is kept where the loop body cannot change it",
 		"B9": "tmp is read only while it still holds the value it was given", "B10": "operands address constants of the right type", "T1": "every emitted opcode has a VM handler", "T2m": "every operator lexeme is compiled to the opcode of the same name",
 	}
 	for _, m := range methods {
-		for _, r := range []string{"B1", "B2", "B3", "B4", "B5", "B6", "B7", "B8", "B9", "B10", "B11", "T1", "T2m"} {
+		for _, r := range []string{"B1", "B2", "B3", "B4", "B5", "B6", "B7", "B8", "B9", "B10", "B11", "B12", "T1", "T2m"} {
 			if r == "T2m" && !strings.Contains(m, "BinOp") && !strings.Contains(m, "UnOp") {
+				continue
+			}
+			if r == "B12" && !strings.Contains(m, "Yield") {
 				continue
 			}
 			bad := false
